@@ -262,9 +262,16 @@ def gen_cfg(rng: random.Random, big: bool):
         nodata = rng.choice([None, None, 0, 7, 65535])
     else:
         nodata = rng.choice([None, None, 0, -9999, 7])
+    # source chunking: anything from single pixels to one chunk, but keep the dask graph small (<= ~500 chunks)
+    cy, cx = rng.choice([16, 32, 50, 64, 300, 7, 1]), rng.choice([16, 32, 50, 64, 300, 7, 1])
+    while -(-ny // cy) * -(-nx // cx) > 500:
+        if -(-ny // cy) >= -(-nx // cx):
+            cy *= 2
+        else:
+            cx *= 2
     return dict(
         shape=[ny, nx], axis=ax, ns=ns, dtype=dt, blocksize=bs, comp=comp, predictor=pred, nodata=nodata,
-        chunks=[rng.choice([16, 32, 50, 64, 300, 7, 1]), rng.choice([16, 32, 50, 64, 300, 7, 1])],
+        chunks=[cy, cx],
         sch=rng.choice([1, ns]), spill_sz=rng.choice([None, None, 1, 5000, 20000, 100000]),
         wpc=rng.choice([None, None, 1, 2, 3]), bigtiff=rng.choice([None, None, True, False]),
         stats=rng.choice([True, False, True]),
